@@ -58,6 +58,7 @@ def run(tier):
         ck.note("simulated_scenarios_tie_free_compared", len(det))
         groups += core.group_allowed(det)
     mc.replay_groups(ck, groups, ("plain", "falsy", "str"))
+    mc.binding_selftest(ck, groups)
     ck.nontrivial = sum(1 for g in groups if mc.nontrivial(*g))
     ck.rule = ("outer timelines (<= 3-4 inner arrivals, ending in completion, error or nothing) x tables of inner timelines (shape "
                "classes: overlapping lifetimes, over before the next arrives, erroring while current / after being replaced, never "
